@@ -37,6 +37,9 @@ func (p *Prog) Graph() *Graph {
 			byName[f.Name()] = append(byName[f.Name()], f)
 		}
 	}
+	saved := regionMode
+	regionMode = false // callers are attributed to the function that contains the call
+	defer func() { regionMode = saved }()
 	for _, f := range g.Funcs {
 		for _, c := range callsIn(f, false) {
 			if sc := c.Common.StaticCallee(); sc != nil {
